@@ -8,6 +8,7 @@ import (
 	"time"
 
 	sdk "github.com/cosmos/cosmos-sdk/types"
+	"github.com/cosmos/cosmos-sdk/codec"
 	"github.com/cosmos/cosmos-sdk/types/query"
 	"github.com/cosmos/cosmos-sdk/x/nft"
 	pnfttypes "github.com/medibloc/panacea-core/v2/x/pnft/types"
@@ -65,6 +66,27 @@ func (m *PnftModel) Clone() *PnftModel {
 		o.FormerTokenOwner[k] = cloneSet(s)
 	}
 	return o
+}
+
+// LoadGenesis derives the model from a pnft genesis section.
+func (m *PnftModel) LoadGenesis(cdc codec.JSONCodec, raw []byte) error {
+	var gs pnfttypes.GenesisState
+	if err := cdc.UnmarshalJSON(raw, &gs); err != nil {
+		return err
+	}
+	for _, d := range gs.Denoms {
+		ob, _ := addrBytes(d.Owner)
+		m.Denoms[d.Id] = &PnftDenom{ID: d.Id, Name: d.Name, Symbol: d.Symbol, Desc: d.Description, Uri: d.Uri, UriHash: d.UriHash, Data: d.Data, Owner: d.Owner, OwnerAddr: ob}
+	}
+	for _, t := range gs.Pnfts {
+		ob, ok := addrBytes(t.Owner)
+		if !ok || m.Denoms[t.DenomId] == nil {
+			return fmt.Errorf("generated pnft genesis holds a token the import cannot mint: %+v", t)
+		}
+		m.Tokens[TokenKey{t.DenomId, t.Id}] = &PnftToken{Denom: t.DenomId, ID: t.Id, Name: t.Name, Desc: t.Description, Uri: t.Uri, UriHash: t.UriHash,
+			Data: t.Data, Creator: t.Creator, CreatedAt: t.CreatedAt, Owner: ob}
+	}
+	return nil
 }
 
 func (m *PnftModel) TokensOf(denom string) []*PnftToken {
@@ -366,7 +388,12 @@ func (w *World) checkPNFTRaw(dump []simnet.KV) error {
 		if cl.Id != d.ID || cl.Name != d.Name || cl.Symbol != d.Symbol || cl.Description != d.Desc || cl.Uri != d.Uri || cl.UriHash != d.UriHash || meta.Data != d.Data {
 			return vio(prop, "denom %q stored as %+v / %+v, model %+v", id, cl, meta, *d)
 		}
-		if !sameAccount(meta.Owner, d.OwnerAddr) {
+		if d.OwnerAddr == nil {
+			// an owner string a genesis installed that is no address: nobody can act for it
+			if meta.Owner != d.Owner {
+				return vio(prop, "denom %q owned by %q in the store, model says %q (ownership changed without a transfer)", id, meta.Owner, d.Owner)
+			}
+		} else if !sameAccount(meta.Owner, d.OwnerAddr) {
 			return vio(prop, "denom %q owned by %s in the store, model says %x (ownership changed without a transfer)", id, meta.Owner, d.OwnerAddr)
 		}
 	}
@@ -509,7 +536,9 @@ func (w *World) checkPNFTCommitted() error {
 		owners[string(t.Owner)] = true
 	}
 	for _, d := range m.Denoms {
-		owners[string(d.OwnerAddr)] = true
+		if len(d.OwnerAddr) > 0 {
+			owners[string(d.OwnerAddr)] = true
+		}
 	}
 	denomIDs := sortedKeys(m.Denoms)
 	probe := append([]string{}, denomIDs...)
